@@ -158,6 +158,36 @@ def check(ctx):
     ctx.ob("C20.R1", gbi, "batch membership is a random permutation of all n observations "
                           "under the given key", len(perm) == 1 and perm[0][2] == (n("key"), n("n")),
            detail=short(perm[0]) if perm else "")
+    rgt = rg.ret()
+    ok_split = False
+    if rgt is not None and rgt[0] == "call" and rgt[2] and is_call(rgt[2][0], "jax.numpy.array_split") \
+            and len(perm) == 1:
+        sp = rgt[2][0]
+        arr, k = kw(sp, "ary", 0), kw(sp, "indices_or_sections", 1)
+        nfull = ("op", "//", n("n"), n("batch_size"))
+        upper = [("op", "*", nfull, n("batch_size")), ("op", "*", n("batch_size"), nfull)]
+        ok_split = (k == nfull and arr is not None and arr[0] == "s" and arr[1] == perm[0]
+                    and arr[2][0] == "slice" and arr[2][1] in (c(0), c(None))
+                    and arr[2][2] in upper and arr[2][3] == c(None))
+    ctx.ob("C20.R1", gbi, "the batches are the n // batch_size equal, disjoint slices of the "
+                          "first (n // batch_size) * batch_size entries of that permutation "
+                          "(every batch has batch_size distinct observations, no observation "
+                          "is in two batches)", ok_split, detail=short(rgt or (), 200),
+           stmt="batch split " + pretty(rgt or ())[:160])
+    fb = body.nested("_fori_body")
+    rfb = evaluate(repo, fb, closure=rb.closure())
+    gcalls = [t for t, _, _ in rfb.calls if t[0] == "call" and t[1] == n("neg_log_prob_grad")]
+    ok_use = False
+    if len(gcalls) == 1 and gen:
+        b_arg = kw(gcalls[0], "batch_indices", 1)
+        ok_use = b_arg == ("s", gen[0], n(fb.params()[0]))
+    fl = [t for t, _, _ in rb.calls if is_call(t, "jax.lax.fori_loop")]
+    ok_loop_b = (len(fl) == 1 and gen and kw(fl[0], "lower", 0) == c(0)
+                 and kw(fl[0], "upper", 1) == ("call", ("n", "len"), (gen[0],), ()))
+    ctx.ob("C20.R1", body, "one gradient step per batch: step i uses batches[i], for i = 0 .. "
+                           "len(batches) - 1", ok_use and ok_loop_b,
+           detail=f"gradient batch {short(kw(gcalls[0], 'batch_indices', 1) or ()) if gcalls else None}",
+           stmt="batch use")
 
     # ------------------------------------------------------------------ R2 / R3
     of = repo.func(OPT)
